@@ -87,7 +87,7 @@ let c17 f =
     let ma = segs_of asegs and mb = segs_of bsegs in
     let ca = caps_of acaps and cb = caps_of bcaps in
     let sa = sel_of asel and sb = sel_of bsel in
-    let fx = { fx_bitlist = fixed; fx_rd = rdfix } in
+    let fx = { fx_bitlist = fixed; fx_farnull = fixed; fx_rd = rdfix } in
     let bt, bd = if same then at, ad else bt, bd in
     let ((r, rla), rlb) = run_equal (nat_of_int 200) (cfg at ad) (cfg bt bd) fx ma ca mb cb same sa sb in
     let ((spec, ta), tb) = spec_equal wfuel (cfg gen_T "0") (cfg gen_T "0") rdfix ma ca mb cb same sa sb dcap pcap in
@@ -102,7 +102,7 @@ let c18 f =
   | [_kind; _group; _arena; t; d; segs; asel] ->
     let m = segs_of segs in
     let s = sel_of asel in
-    let fx = { cx_complist = fixed; cx_bitpad = fixed; cx_rd = rdfix } in
+    let fx = { cx_complist = fixed; cx_bitpad = fixed; cx_farnull = fixed; cx_rd = rdfix } in
     let res = match run_canon (nat_of_int 200) (cfg t d) fx m s with
       | KOk bs -> "ok:" ^ hex_of_bytes bs
       | KErr -> "E" | KPanic -> "panic" | KFuel -> "fuel" in
